@@ -229,6 +229,16 @@ func c14GenCases(tier string, emit func(c14Case)) {
 			emit(c14Case{Mode: "many", NodeMask: n})
 		}
 	}
+	// ... and on both sides of every power of two up to 1024 (thorough 4096), with counts that are not multiples of
+	// small chunk sizes (an index built in chunks or by several workers must not lose the tail)
+	for _, n := range []int{127, 128, 129, 255, 256, 257, 511, 512, 513, 771, 1003, 1023, 1024, 1025} {
+		emit(c14Case{Mode: "many", NodeMask: n})
+	}
+	if tier == "thorough" {
+		for _, n := range []int{2047, 2049, 3001, 4095, 4097} {
+			emit(c14Case{Mode: "many", NodeMask: n})
+		}
+	}
 	// axis K: every constraint kind (results and traces of each kind carry the location)
 	for _, k := range c14KindSpecs() {
 		emit(c14Case{Mode: "kinds", Kind: k.name})
@@ -349,7 +359,7 @@ func c14Walk(c *Ctx, cs c14Case, report string, exp map[string]*c14Loc) (nres, w
 func init() {
 	Register(Meta{
 		ID: "C14", Level: "exploration",
-		Rule:        "AMF-shaped source maps generated for a 6-node skeleton (2 nodes failing at top level, 1 failing through a nested child so a sub-result and its trace carry the child's location, passing nodes): axis R = every 4-tuple (start line/column, end line/column) over a magnitude alphabet (0 .. 2^31 .. 2^53+1 [.. 10^20]); axis F = every assignment of nodes to {root file, 2 additional files} (1 or several additional locations, 1 or several elements each); axis E = every subset of nodes having a node-level entry x property-level-only entries, with and without BaseUnitSourceInformation; and no source maps; axis K = every constraint kind of the C01 atom catalogue (plain, negated, as a condition) plus uniqueValues on a path, nested/atLeast/atMost, alternative/inverse/sequence paths, custom Rego in three forms, and/or/not/if-then-else, each on its own small graph with lexical entries on two thirds of the nodes (some declared in an additional file). Oracle: location present iff node-level entry, numbers equal as decimal strings, uri = declaring file; and the report equals the source-map-free report once all location members are deleted. Non-trivial = document where at least one reported node has a location and one does not, or any axis-R/F case with locations; distinct by document text.",
+		Rule:        "AMF-shaped source maps generated for a 6-node skeleton (2 nodes failing at top level, 1 failing through a nested child so a sub-result and its trace carry the child's location, passing nodes): axis R = every 4-tuple (start line/column, end line/column) over a magnitude alphabet (0 .. 2^31 .. 2^53+1 [.. 10^20]); axis F = every assignment of nodes to {root file, 2 additional files} (1 or several additional locations, 1 or several elements each); axis E = every subset of nodes having a node-level entry x property-level-only entries, with and without BaseUnitSourceInformation; no source maps; size axis: 1..70 failing nodes with one source map each and counts around every power of two up to 1024 (4096); axis K = every constraint kind of the C01 atom catalogue (plain, negated, as a condition) plus uniqueValues on a path, nested/atLeast/atMost, alternative/inverse/sequence paths, custom Rego in three forms, and/or/not/if-then-else, each on its own small graph with lexical entries on two thirds of the nodes (some declared in an additional file). Oracle: location present iff node-level entry, numbers equal as decimal strings, uri = declaring file; and the report equals the source-map-free report once all location members are deleted. Non-trivial = document where at least one reported node has a location and one does not, or any axis-R/F case with locations; distinct by document text.",
 		Assumptions: []string{"one lexical entry per node (AMF emits one)"},
 	}, func(tier string, emit func(c14Case)) { c14GenCases(tier, emit) }, c14Run)
 }
